@@ -160,7 +160,9 @@ def check(ctx: Ctx) -> str:
     ctx.check(kw.get("dir") == f"os.path.dirname({fname})" and kw.get("delete") == "False", "tmp:dir", "bccache:FileSystemBytecodeCache.dump_bytecode", "temp file placement",
               f"the temp file must be created in the cache directory with delete=False (got dir={kw.get('dir')}, delete={kw.get('delete')}): os.replace across file systems is not atomic", db.loc(tf[0]), detail=kw)
     rep = [c for c in astq.calls(db.node) if astq.callee(c) in ("os.replace", "os.rename")]
-    ctx.check(len(rep) == 1 and astq.callee(rep[0]) == "os.replace" and [ast.unparse(a) for a in rep[0].args] == ["f.name", fname], "replace", "bccache:FileSystemBytecodeCache.dump_bytecode", "atomic publish",
+    tfp = getattr(tf[0], "_parent", None)
+    tfv = tfp.targets[0].id if isinstance(tfp, ast.Assign) and isinstance(tfp.targets[0], ast.Name) else "f"  # the local holding the temp file, whatever its name
+    ctx.check(len(rep) == 1 and astq.callee(rep[0]) == "os.replace" and [ast.unparse(a) for a in rep[0].args] == [f"{tfv}.name", fname], "replace", "bccache:FileSystemBytecodeCache.dump_bytecode", "atomic publish",
               "the entry must be published with os.replace(f.name, name)", db.loc())
     trys = [n for n in ast.walk(db.node) if isinstance(n, ast.Try) and astq.enclosing_qual(n).endswith("dump_bytecode")]
     ctx.floor("try statements in dump_bytecode", len(trys), 2)
@@ -174,7 +176,7 @@ def check(ctx: Ctx) -> str:
                 ctx.check(any(isinstance(x, ast.Raise) and x.exc is None for x in ast.walk(h)), f"try{i}:reraise", "bccache:FileSystemBytecodeCache.dump_bytecode", "BaseException re-raised", "a BaseException handler must re-raise", db.loc(h))
         ctx.check("BaseException" in hs, f"try{i}:base", "bccache:FileSystemBytecodeCache.dump_bytecode", f"try {i} covers BaseException", "interruption (KeyboardInterrupt, SystemExit, cancellation) between temp-file creation and publish leaves the temp file behind", db.loc(tr))
     wr = [c for c in astq.calls(db.node) if astq.callee(c) == "bucket.write_bytecode"]
-    ctx.check(len(wr) == 1 and any(p == "body" for _, p in enclosing_try(wr[0])), "write:in-try", "bccache:FileSystemBytecodeCache.dump_bytecode", "write inside try", "bucket.write_bytecode(f) must run inside the guarded region", db.loc())
+    ctx.check(len(wr) == 1 and [ast.unparse(a) for a in wr[0].args] == [tfv] and any(p == "body" for _, p in enclosing_try(wr[0])), "write:in-try", "bccache:FileSystemBytecodeCache.dump_bytecode", "write inside try", "bucket.write_bytecode(f) must run inside the guarded region", db.loc())
     lbf = repo.func("bccache:FileSystemBytecodeCache.load_bytecode")
     hs2 = set()
     for h in [n for n in ast.walk(lbf.node) if isinstance(n, ast.ExceptHandler)]:
